@@ -418,8 +418,11 @@ func runC11(rc *RunCtx) {
 			}
 			dialedTarget := false
 			for _, d := range w.Dials {
-				if d.Port == 7200+i && d.Err == nil {
-					dialedTarget = true // (a dial cancelled while in flight is no relay yet)
+				// "already relaying": at least one byte crossed the target connection (a
+				// dial cancelled while in flight, or a connection that the stopping
+				// generation dropped between the dial and the first byte, is no relay yet)
+				if d.Port == 7200+i && d.Err == nil && d.Conn != nil && (len(d.Conn.Wrote) > 0 || len(d.Conn.Peer().Wrote) > 0) {
+					dialedTarget = true
 				}
 			}
 			if recs[0].first("auth") != nil && !dialedTarget {
